@@ -431,7 +431,7 @@ def rangeC (lo hi : Nat) : _range := { (default : _range) with lo := lo, hi := h
 
 /-- BRIDGE `range->lo > range->hi` = the order test of `rangeCheck` -/
 theorem parse_range_order_bridge (lo hi : Nat) : parse_range_order (rangeC lo hi) = some (decide (lo > hi)) := by
-  simp [parse_range_order, rangeC]
+  by_cases h : lo > hi <;> simp [parse_range_order, rangeC, h] <;> omega
 
 /-- BRIDGE `range->hi == ULONG_MAX || range->hi - range->lo >= MAX_RANGE` = the size test of `rangeCheck`
     (`rangeTooBig lo hi || ulongMaxRejected cfg hi`) for every ordered pair of `unsigned long`s, for the
